@@ -151,6 +151,20 @@ func TestVerifC01(t *testing.T) {
 					}
 				}
 			}
+			// a cleartext of zero bytes (what an empty application payload without metadata marshals to)
+			for _, raw := range [][]byte{nil, {}} {
+				k++
+				data, err := hw.S.st.SealEnvelope(context.Background(), hw.g, raw)
+				must(err)
+				for _, rcv := range []*party{hw.R, hw.F} {
+					res := rcv.open(hw.g, data)
+					okk := res.ok && len(res.payload) == 0 && res.counter == k
+					rep.Eval(fmt.Sprintf("%s/honest-empty-cleartext/%v", wd.kind, okk))
+					if !okk {
+						rep.Violation("C01/honest", fmt.Sprintf("world=%s honest message with an empty cleartext (counter %d) not opened to the original: %s", wd.kind, k, res.err), c01Case{World: wd.kind, Kind: "honest", Detail: fmt.Sprintf("empty cleartext counter=%d", k)})
+					}
+				}
+			}
 			rep.Sample(map[string]interface{}{"kind": "honest", "world": wd.kind, "payload_sizes": sizes, "receivers": 2})
 		}
 
